@@ -114,7 +114,7 @@ def run_task(task):
 
 
 def plan(tier, seed):
-    total = 4800 if tier == "quick" else 64000
+    total = 8000 if tier == "quick" else 64000
     W = 16
     return [{"n": total // W, "seed": seed * 1000 + w, "shrink": 200 if tier == "quick" else 1500}
             for w in range(W)]
